@@ -40,14 +40,14 @@ rc=1
 for p in "${props[@]}"; do
   out=$(VERIF_GOMOD="$wt.mod" ./check "$p" quick 2>&1); st=$?
   if [ $st -eq 1 ]; then
-    echo "RESULT check=$p tier=quick CAUGHT: $(echo "$out" | grep -m1 '^VIOLATION' | cut -c1-260)"
+    echo "RESULT check=$p tier=quick CAUGHT: $(echo "$out" | grep -a -m1 '^VIOLATION' | cut -c1-260)"
     [ "$p" = "${props[0]}" ] && rc=0
   else
     echo "RESULT check=$p tier=quick exit=$st: $(echo "$out" | tail -1 | cut -c1-160)"
     [ "${QUICK_ONLY:-0}" = 1 ] && continue
     out=$(VERIF_GOMOD="$wt.mod" ./check "$p" thorough 2>&1); st=$?
     if [ $st -eq 1 ]; then
-      echo "RESULT check=$p tier=thorough CAUGHT: $(echo "$out" | grep -m1 '^VIOLATION' | cut -c1-260)"
+      echo "RESULT check=$p tier=thorough CAUGHT: $(echo "$out" | grep -a -m1 '^VIOLATION' | cut -c1-260)"
       [ "$p" = "${props[0]}" ] && rc=0
     else
       echo "RESULT check=$p tier=thorough exit=$st MISSED: $(echo "$out" | tail -1 | cut -c1-160)"
